@@ -502,10 +502,30 @@ def replay(path):
     return 1 if (out.oracle_violations or out.mismatches) else 0
 
 
-SCOPE = ""
-EXPLANATION = ""
-TRUSTED = []
-ASSUMPTIONS = []
-TECHNIQUE = ""
-LEVEL_TEXT = ""
-LEVEL_NOTE = ""
+SCOPE = ("proved for every pool math satisfying MathLaws (no remainder on the all-asset join of exactly the needed liquidity; exits never take a whole reserve) and "
+         "every finite history of create / join (3 kinds) / exit (3 kinds) / routed swap (4 messages, any hops) / bank send messages by ordinary accounts, by "
+         "induction over the history, axiom-free: pool bank balance = reported reserves + direct sends; share supply = reported total shares; every non-share "
+         "supply constant; per message the deltas of sender + pools + taker-fee collector + community pool cancel against minted / burnt shares and nobody else is "
+         "touched; each unit of an exact-in hop's tokenIn is in the pool or with the collector; a failed message changes nothing. MathLaws are proved for a concrete "
+         "math (C02/Instance.v) and are what the oracle measures on the real pools.")
+EXPLANATION = ("Gallina model C02/Model.v of x/gamm/keeper pool_service.go / share.go / swap.go, the record updates of balancer/pool.go and stableswap/pool.go and "
+               "x/poolmanager/create_pool.go, on top of the C05 router model; the pool math is a parameter. Tie to /repo: harness/routerdrv TestDriverC02 runs histories through "
+               "the gamm, balancer, stableswap and (recording) poolmanager MsgServers under baseapp atomicity, probing on throw-away branches what the real pool computes for each "
+               "call; the Coq model replays those amounts (table-driven math) and every bank balance, pool record, share total, supply, result class and value is compared after "
+               "every message. The Python oracle checks the four equalities of the property text on the implementation's observations.")
+TRUSTED = [
+    "hand-written model coq/theories/C02/Model.v (+ C05/Model.v), tied to x/gamm and x/poolmanager by the correspondence run (harness/routerdrv c02_test.go against /repo's working tree)",
+    "harness/routerdrv (Go: probes with a rich account on discarded branches, recording proxies), props/c02.py (generator, table construction, oracle), Coq vm_compute evaluation of generated case files",
+    "modelled not verified: SDK bank keeper (send / mint / burn, insufficient funds, invalid coin sets), distribution FundCommunityPool (= send to the module account), CacheContext atomicity of messages",
+    "not modelled: hooks (twap, pool-incentives, protorev), events, gas, total-liquidity counters, scaling-factor governance, pool asset denoms that are themselves pool shares",
+]
+ASSUMPTIONS = [
+    "messages are signed by ordinary accounts (pool / module accounts have no keys); pool assets are ordinary (non-share) denoms",
+    "pool creation messages carry well-formed weights / scaling factors / spread factor (they only matter to the math); exit fee must be 0 as InitializePool demands",
+    "MathLaws of the pool math: proved for the instance PM; on the real pools they are exactly what the oracle's equality (1) observes after every join / exit",
+]
+TECHNIQUE = "Coq proofs by induction over message histories on a keeper model parametric in the pool math; model tied to x/gamm + x/poolmanager by differential correspondence (table-driven math, vm_compute) + independent oracle"
+LEVEL_TEXT = ("Machine-checked theorems (Coq 8.16.1, axiom-free) for all histories, amounts, taker-fee tables and pool maths satisfying two stated laws: the four conservation "
+              "statements of the property plus atomic failure. The model is checked against the real gamm keeper and router after every message of generated histories on every run.")
+LEVEL_NOTE = ("Trusted: Coq kernel (vm_compute, no native_compute), no axioms; hand-written model; Go driver + python glue; SDK bank / CacheContext semantics. "
+              "The pools' own math is outside C02 (C04): it enters through the probed amounts and the two MathLaws.")
